@@ -68,8 +68,10 @@ type Config struct {
 	Own                func(d docgen.Doc, mr model.Result) bool
 	Env                *batch.Env
 	BatchSz            int
-	MinDecid           int  // minimum deciding observations for a conclusive run
-	RootTypeFromOutput bool // find the root type in the emitted file (struct whose json tags are the root's property names)
+	MinDecid           int                 // minimum deciding observations for a conclusive run
+	AfterBatch         func(cases []*Case) // census callback, called per chunk while the programs are still in memory
+	KeepRefused        bool                // keep the directories of refused programs (C10 reports them)
+	RootTypeFromOutput bool                // find the root type in the emitted file (struct whose json tags are the root's property names)
 }
 
 // Violation is one unexplained disagreement.
@@ -194,110 +196,124 @@ func Run(cfg *Config) (*Report, error) {
 	if len(cfg.Modes) == 0 {
 		cfg.Modes = []string{"json"}
 	}
-	// 1. programs
-	var progs []*batch.Program
-	var all []*Case
-	for _, c := range cfg.Cases {
-		all = append(all, c)
-		if c.Pair != nil {
-			all = append(all, c.Pair)
-		}
-	}
-	for i, c := range all {
-		c.idx = i
-		rf := c.RootFile
-		if rf == "" {
-			rf = "root.json"
-		}
-		var data []byte
-		if c.YAML {
-			data = sg.ToYAML(c.Root.ToJSON(), sg.YAMLBlock)
-		} else {
-			data = jsonx.MarshalIndent(c.Root.ToJSON())
-		}
-		in := rf
-		if c.Cwd != "" {
-			if rel, err := filepath.Rel(c.Cwd, rf); err == nil {
-				in = rel
-			}
-		}
-		p := &batch.Program{ID: fmt.Sprintf("p%06d", i), Files: append([]batch.File{{Path: rf, Data: data}}, c.Extra...), Args: c.Args, Inputs: []string{in}, Cwd: c.Cwd, Meta: c}
-		if c.AbsInput {
-			p.Inputs = []string{filepath.Join(env.St.Root, "progs", p.ID, rf)}
-		}
-		for gi, gc := range c.Group {
-			if gc.RootFile == "" {
-				gc.RootFile = fmt.Sprintf("group%d.json", gi)
-			}
-			p.Files = append(p.Files, batch.File{Path: gc.RootFile, Data: jsonx.MarshalIndent(gc.Root.ToJSON())})
-			p.Inputs = append(p.Inputs, gc.RootFile)
-			gc.prog = p
-			gc.idx = i*100 + gi + 1
-		}
-		c.prog = p
-		progs = append(progs, p)
-	}
-	rep.Programs = len(progs)
-	env.GenerateAll(progs)
-	if cfg.RootTypeFromOutput {
-		for _, p := range progs {
-			c := p.Meta.(*Case)
-			if !p.Usable() || c.RootType != "" {
-				continue
-			}
-			want := map[string]bool{}
-			for _, pr := range c.Root.Props {
-				want[pr.Name] = true
-			}
-			for _, tn := range gocheck.TypeNames(p.Report.File) {
-				fs := gocheck.StructFields(p.Report.Fset, p.Report.File, tn)
-				if len(fs) == 0 {
-					continue
-				}
-				got := map[string]bool{}
-				for _, f := range fs {
-					if m := reJSONTag.FindStringSubmatch(f.Tag); m != nil {
-						got[strings.TrimSuffix(m[1], ",omitempty")] = true
-					}
-				}
-				same := len(got) == len(want)
-				for k := range want {
-					same = same && got[k]
-				}
-				if same {
-					c.RootType = tn
-					break
-				}
-			}
-		}
-	}
-	for _, p := range progs {
-		c := p.Meta.(*Case)
-		if p.Proc.Exit != 0 || p.Src == nil {
-			msg := firstLine(string(p.Proc.Stderr))
-			rep.GenFail[classify(msg)]++
-			if len(rep.GenFailEx) < 5 {
-				rep.GenFailEx = append(rep.GenFailEx, msg+" :: "+string(jsonx.Marshal(c.Root.ToJSON())))
-			}
-			continue
-		}
-		if !p.Usable() {
-			rep.CompileFail[classify(p.Report.Summary())]++
-			if len(rep.GenFailEx) < 10 {
-				rep.GenFailEx = append(rep.GenFailEx, p.Report.Summary()+" :: "+string(jsonx.Marshal(c.Root.ToJSON())))
-			}
-			continue
-		}
-		rep.Usable++
-	}
-	// 2. batches
+	// Cases are processed chunk by chunk (generate, compile, execute, decide, census callback) and the programs of a
+	// finished chunk are released: memory stays bounded in the thorough tier.
+	next := 0
 	for lo := 0; lo < len(cfg.Cases); lo += cfg.BatchSz {
 		hi := lo + cfg.BatchSz
 		if hi > len(cfg.Cases) {
 			hi = len(cfg.Cases)
 		}
-		if err := runBatch(cfg, rep, ks, cfg.Cases[lo:hi]); err != nil {
+		chunk := cfg.Cases[lo:hi]
+		var progs []*batch.Program
+		var all []*Case
+		for _, c := range chunk {
+			all = append(all, c)
+			if c.Pair != nil {
+				all = append(all, c.Pair)
+			}
+		}
+		for _, c := range all {
+			i := next
+			next++
+			c.idx = i
+			rf := c.RootFile
+			if rf == "" {
+				rf = "root.json"
+			}
+			var data []byte
+			if c.YAML {
+				data = sg.ToYAML(c.Root.ToJSON(), sg.YAMLBlock)
+			} else {
+				data = jsonx.MarshalIndent(c.Root.ToJSON())
+			}
+			in := rf
+			if c.Cwd != "" {
+				if rel, err := filepath.Rel(c.Cwd, rf); err == nil {
+					in = rel
+				}
+			}
+			p := &batch.Program{ID: fmt.Sprintf("p%06d", i), Files: append([]batch.File{{Path: rf, Data: data}}, c.Extra...), Args: c.Args, Inputs: []string{in}, Cwd: c.Cwd, Meta: c}
+			if c.AbsInput {
+				p.Inputs = []string{filepath.Join(env.St.Root, "progs", p.ID, rf)}
+			}
+			for gi, gc := range c.Group {
+				if gc.RootFile == "" {
+					gc.RootFile = fmt.Sprintf("group%d.json", gi)
+				}
+				p.Files = append(p.Files, batch.File{Path: gc.RootFile, Data: jsonx.MarshalIndent(gc.Root.ToJSON())})
+				p.Inputs = append(p.Inputs, gc.RootFile)
+				gc.prog = p
+				gc.idx = i*100 + gi + 1
+			}
+			c.prog = p
+			progs = append(progs, p)
+		}
+		rep.Programs += len(progs)
+		env.GenerateAll(progs)
+		if cfg.RootTypeFromOutput {
+			for _, p := range progs {
+				c := p.Meta.(*Case)
+				if !p.Usable() || c.RootType != "" {
+					continue
+				}
+				want := map[string]bool{}
+				for _, pr := range c.Root.Props {
+					want[pr.Name] = true
+				}
+				for _, tn := range gocheck.TypeNames(p.Report.File) {
+					fs := gocheck.StructFields(p.Report.Fset, p.Report.File, tn)
+					if len(fs) == 0 {
+						continue
+					}
+					got := map[string]bool{}
+					for _, f := range fs {
+						if m := reJSONTag.FindStringSubmatch(f.Tag); m != nil {
+							got[strings.TrimSuffix(m[1], ",omitempty")] = true
+						}
+					}
+					same := len(got) == len(want)
+					for k := range want {
+						same = same && got[k]
+					}
+					if same {
+						c.RootType = tn
+						break
+					}
+				}
+			}
+		}
+		for _, p := range progs {
+			c := p.Meta.(*Case)
+			if p.Proc.Exit != 0 || p.Src == nil {
+				msg := firstLine(string(p.Proc.Stderr))
+				rep.GenFail[classify(msg)]++
+				if len(rep.GenFailEx) < 5 {
+					rep.GenFailEx = append(rep.GenFailEx, msg+" :: "+string(jsonx.Marshal(c.Root.ToJSON())))
+				}
+				continue
+			}
+			if !p.Usable() {
+				rep.CompileFail[classify(p.Report.Summary())]++
+				if len(rep.GenFailEx) < 10 {
+					rep.GenFailEx = append(rep.GenFailEx, p.Report.Summary()+" :: "+string(jsonx.Marshal(c.Root.ToJSON())))
+				}
+				continue
+			}
+			rep.Usable++
+		}
+		if err := runBatch(cfg, rep, ks, chunk); err != nil {
 			return rep, err
+		}
+		if cfg.AfterBatch != nil {
+			cfg.AfterBatch(chunk)
+		}
+		for _, p := range progs {
+			if cfg.KeepRefused && p.Proc.Exit != 0 {
+				continue
+			}
+			_ = os.RemoveAll(p.Dir)
+			p.Src, p.Report = nil, nil
 		}
 	}
 	rep.Wall = time.Since(t0)
